@@ -33,6 +33,9 @@ If(c, name) == IF c THEN {name} ELSE {}
 
 BeginClauses(r) ==
   If(~r.muzzleRowOK, "C03.MuzzleRow") \cup
+  \* the solver works on the range and step the caller asked for (to unit-conversion rounding): an entry point that trims or
+  \* rounds them changes which multiples are owed
+  If(~r.requestKept, "C03.RequestNotPassedOn") \cup
   If(r.defaultStep /\ ~(r.Klo <= 11 /\ 11 <= r.Khi), "C03.DefaultStepEleven")
 
 OnBegin(r) ==
